@@ -215,6 +215,10 @@ pub struct Group {
     pub toks: (u8, u8),
     /// pattern contains `*` (compiled to a regex)
     pub regexy: bool,
+    /// a second rule with the SAME pattern and options but this tag: the probe is then decided by
+    /// two rules of one bucket, and it is active when either tag is enabled
+    #[serde(default)]
+    pub twin: Option<String>,
 }
 
 #[derive(Clone, Debug, Serialize, Deserialize)]
@@ -251,7 +255,7 @@ impl Case for SharedCase {
 }
 
 /// (kind, tag, rule line(s) index, probe url) per expanded rule
-fn shared_rules(c: &SharedCase) -> (Vec<String>, Vec<(Kind, String, String)>) {
+fn shared_rules(c: &SharedCase) -> (Vec<String>, Vec<(Kind, Vec<String>, String)>) {
     let mut ls = vec![];
     let mut probes = vec![];
     let mut n = 0usize;
@@ -268,18 +272,25 @@ fn shared_rules(c: &SharedCase) -> (Vec<String>, Vec<(Kind, String, String)>) {
             let id = format!("{}{:04}", letter, n);
             let pat = if g.regexy { format!("/{}/{}/*{}", a, b, id) } else { format!("/{}/{}/{}", a, b, id) };
             let url = if g.regexy { format!("https://h.example.com/{}/{}/zz/{}", a, b, id) } else { format!("https://h.example.com/{}/{}/{}", a, b, id) };
-            match g.kind {
-                Kind::Block => ls.push(format!("{}$tag={}", pat, g.tag)),
-                Kind::Exception => {
-                    ls.push(format!("/{}^", id)); // untagged blocker (own token) so the exception is observable
-                    ls.push(format!("@@{}$tag={}", pat, g.tag));
-                }
-                _ => {
-                    ls.push(format!("@@/{}^", id));
-                    ls.push(format!("{}$important,tag={}", pat, g.tag));
+            let mut tags = vec![g.tag.clone()];
+            if let Some(t2) = &g.twin {
+                if *t2 != g.tag {
+                    tags.push(t2.clone());
                 }
             }
-            probes.push((g.kind.clone(), g.tag.clone(), url));
+            match g.kind {
+                Kind::Exception => ls.push(format!("/{}^", id)), // untagged blocker (own token) so the exception is observable
+                Kind::Important => ls.push(format!("@@/{}^", id)),
+                _ => {}
+            }
+            for tg in &tags {
+                match g.kind {
+                    Kind::Block => ls.push(format!("{}$tag={}", pat, tg)),
+                    Kind::Exception => ls.push(format!("@@{}$tag={}", pat, tg)),
+                    _ => ls.push(format!("{}$important,tag={}", pat, tg)),
+                }
+            }
+            probes.push((g.kind.clone(), tags, url));
             n += 1;
         }
     }
@@ -288,14 +299,17 @@ fn shared_rules(c: &SharedCase) -> (Vec<String>, Vec<(Kind, String, String)>) {
 
 pub fn check_shared(c: &SharedCase, obs: &mut Obs) -> Result<(), String> {
     let (ls, probes) = shared_rules(c);
-    let tags: Vec<String> = probes.iter().map(|p| p.1.clone()).collect();
+    let tags: Vec<String> = probes.iter().flat_map(|p| p.1.clone()).collect();
+    if c.groups.iter().any(|g| g.twin.is_some()) {
+        obs.label("twin-rules");
+    }
     if c.groups.iter().any(|g| g.size > 64) {
         obs.label("group>64");
     }
     run_history(&ls, &c.ops, c.optimize, &tags, obs, &mut |e, set, step, obs| {
         for (i, (kind, tag, url)) in probes.iter().enumerate() {
             obs.inner_evals += 1;
-            let active = set.contains(tag);
+            let active = tag.iter().any(|t| set.contains(t));
             let req = adblock::request::Request::new(url, "https://other.org/", "script").unwrap();
             let b = e.check_network_request(&req);
             let ok = match kind {
@@ -338,7 +352,8 @@ pub fn decode_shared(t: &mut Tape) -> SharedCase {
         };
         let size = if big { [2usize, 63, 64, 65, 65, 66, 129][t.pick(7)] } else { 1 + t.pick(3) };
         let toks = if big { big_toks } else { (t.pick(ntok) as u8, t.pick(ntok) as u8) };
-        groups.push(Group { kind, tag: t.choose(&POOL[..3]).to_string(), size, toks, regexy: if big { false } else { t.chance(1, 2) } });
+        let twin = if !big && t.chance(1, 3) { Some(t.choose(&POOL[..4]).to_string()) } else { None };
+        groups.push(Group { kind, tag: t.choose(&POOL[..3]).to_string(), size, toks, regexy: if big { false } else { t.chance(1, 2) }, twin });
     }
     let m = 1 + t.pick(8);
     let mut ops = vec![];
@@ -388,7 +403,7 @@ pub fn decode(t: &mut Tape) -> TagCase {
 }
 
 pub fn check(ctx: &mut Ctx) {
-    ctx.rule = "1-6 tagged rules, each of kind blocking / exception (with an untagged blocker behind it) / important (with an untagged exception it must beat) / csp, 4 pattern shapes, tags from a pool of 5, optimisation on/off; history of 1-8 use/enable/disable (duplicates, unknown tags, empty sets) and reload ops (bytes serialized by a sibling engine holding a different enabled set). After every op each rule's private probe request and tag_exists over the pool (+ \"\" and an unknown tag) are compared with a set model. shared: 2-7 groups of tagged blocking / exception / important rules whose patterns share tokens from a pool of 2-4 (plain or '*' patterns, the per-rule suffix is never a token), so bucket membership and optimiser fusion depend on the enabled set; 1 in 30 cases uses 2-3 groups of 2/63/64/65/66/129 rules in one bucket; same histories and set model. Non-trivial = at least two set-changing ops and a rule whose activity flips.".into();
+    ctx.rule = "1-6 tagged rules, each of kind blocking / exception (with an untagged blocker behind it) / important (with an untagged exception it must beat) / csp, 4 pattern shapes, tags from a pool of 5, optimisation on/off; history of 1-8 use/enable/disable (duplicates, unknown tags, empty sets) and reload ops (bytes serialized by a sibling engine holding a different enabled set). After every op each rule's private probe request and tag_exists over the pool (+ \"\" and an unknown tag) are compared with a set model. shared: 2-7 groups of tagged blocking / exception / important rules whose patterns share tokens from a pool of 2-4 (plain or '*' patterns, the per-rule suffix is never a token; 1 group in 3 doubles every rule with a same-pattern twin under another tag, so a probe is active when either tag is enabled), so bucket membership and optimiser fusion depend on the enabled set; 1 in 30 cases uses 2-3 groups of 2/63/64/65/66/129 rules in one bucket; same histories and set model. Non-trivial = at least two set-changing ops and a rule whose activity flips.".into();
     ctx.assumptions = vec!["tag+redirect, tag+removeparam and tag+generichide are documented as unsupported and are not generated".into()];
     let n = ctx.tier.pick(120_000, 2_000_000);
     drive(ctx, "history", n, 200, &decode, &check_case);
